@@ -193,8 +193,10 @@ def parse_response(raw):
     out['version'] = sl[0].decode('latin-1')
     headers = []
     for ln in lines[1:]:
-        if b'\n' in ln or b'\r' in ln:
+        if b'\n' in ln or b'\r' in ln or ln[:1] in (b' ', b'\t'):
+            # bare CR / LF, or a folded continuation line
             out['problems'].append('bare-crlf-in-header')
+            continue
         if b':' not in ln:
             out['problems'].append('header-without-colon')
             continue
@@ -334,7 +336,13 @@ def run_world(plan, keep_log=False):
                         c.close_write()
                     raw, how = c.recv_all(m.get('read_timeout'))
                 except ConnectionResetError:
-                    raw, how = bytes(c.s2c), 'reset'
+                    if c.accepted and c.server_closed:
+                        # the server answered and closed before the sender
+                        # had written everything
+                        raw, how = bytes(c.s2c), 'eof'
+                        rec['early_close'] = True
+                    else:
+                        raw, how = bytes(c.s2c), 'reset'
                 rec['how'] = how
                 rec['raw'] = raw
                 rec['accepted'] = c.accepted
